@@ -94,7 +94,21 @@ def canRemoveDebug : Stmt → Bool
      | _ => false)
   | _ => false
 
-def removePass : SuiteT := { suiteF := filterSuite isPass }
+def isStrStmt : Stmt → Bool
+  | .expr (.constant (.str ..)) => true
+  | _ => false
+
+/-- `RemovePass.suite`, second part: when the block starts with `pass` and the first statement that stays is a string, that
+    string would become the docstring of the block: a `0` takes the place of the leading `pass` -/
+def passGuard (b : List Stmt) : List Stmt :=
+  match b with
+  | .pass :: rest =>
+    (match rest.filter (fun s => !isPass s) with
+     | s :: _ => if isStrStmt s then zeroStmt :: rest else b
+     | [] => b)
+  | _ => b
+
+def removePass : SuiteT := { suiteF := fun m b => filterSuite isPass m (passGuard b) }
 def removeAsserts : SuiteT := { suiteF := filterSuite isAssert }
 def removeDebug : SuiteT := { suiteF := filterSuite canRemoveDebug }
 def removeLiterals : SuiteT := { suiteF := filterSuite isLiteralStmt }
